@@ -6,6 +6,21 @@ import json, os, subprocess
 V = os.path.dirname(os.path.dirname(os.path.abspath(__file__)))
 
 CHECKS = {
+    "C14": dict(engine="E-tty",
+                technique="runtime monitors over hostile interactive sessions: crash/exit-status monitor, DEC private mode ledger over the recorded raw tty byte stream, termios before/after, temp-file and process ledgers, trace-based progress (hang) detection",
+                text="Sessions with random option vectors, hostile items, window sizes from 1x1 to 200x60 with resizes, POSTed actions, raw key bytes, SGR mouse events; ended by Enter/Escape/ctrl-c/abort/SIGTERM/SIGINT/become at arbitrary moments relative to running preview/execute/reload commands. After exit: no crash text, documented exit status, terminal modes restored (ledger), termios unchanged, $TMPDIR empty, no process of the pane's session left.",
+                note="SIGHUP is outside the property's exit paths; after become only crash/termios/modes are checked. A hang is decided by trace silence plus unconsumed batches, with a goroutine dump as witness.",
+                ref="4/C14"),
+    "C15": dict(engine="E-tty",
+                technique="runtime monitor: screen parser over tmux capture-pane synchronised with GET / by a nonce handshake and a stable-screen pairing, compared with the reported state",
+                text="After quiescence a nonce prompt synchronises the captured screen with GET /; prompt row, info counts, header rows, list rows (contiguous window of matches[] in the layout's direction, truncation with the ellipsis, width bound), pointer and markers are compared with the state, over three layouts x three info styles x header settings x border x multi, with resizes.",
+                note="ASCII items, fullscreen geometry; tmux is the terminal emulator.",
+                ref="4/C15"),
+    "C20": dict(engine="E-tty",
+                technique="runtime monitor: invocation log written by the preview command itself + process-group ledger of the pane's session + screen check, at trace-defined quiescence and in logical time (trace silence) for the catch-up clause",
+                text="A logging preview command with four behaviour classes (instant, slow, never-ending, incremental) under histories of moves, query edits, toggles, refresh/change/toggle-preview, reloads and resizes, paced or in concurrent bursts, with failpoints delaying preview start: the last started invocation must be the one for the state, its nonce (and complete output) on screen, at most one preview process group alive at every sample, none after exit, no temp file left.",
+                note="'Catches up' is decided when the state is wrong and the hook trace has been quiet for 3 s.",
+                ref="4/C20"),
     "C07": dict(engine="E-proc/E-tty",
                 technique="runtime monitor: output-framing model over recorded stdout bytes and exit status (filter mode at process level; interactive endings in a private tmux server)",
                 text="Filter-mode stdout/exit status under --with-nth/--ansi/--read0/--print0/--print-query and interactive endings (Enter, expect keys, Escape, print-query, accept-or-print-query, accept-non-empty, --select-1/--exit-0) with selection histories are compared byte for byte with the documented framing.",
@@ -131,7 +146,7 @@ def main():
         "engines": [
             {"name": "E-algo", "path": "harness/algochk", "serves_properties": ["C02", "C03", "C05"], "kind_free_text": "in-process calls of exported algo.* matchers from worker processes, reference oracles"},
             {"name": "E-lib/E-proc", "path": "harness/filterchk, harness/fzfrun", "serves_properties": ["C01", "C04", "C05"], "kind_free_text": "real filter in library mode (fzf.ParseOptions + fzf.Run with channels) and as a child process built from the working tree"},
-            {"name": "E-tty", "path": "harness/tty, harness/livechk", "serves_properties": ["C07", "C08", "C09"], "kind_free_text": "the built fzf binary inside a private tmux server driven through --listen / keys; GET / state, stdout, exit status; hook trace for logical-time quiescence and failpoints"},
+            {"name": "E-tty", "path": "harness/tty, harness/livechk", "serves_properties": ["C07", "C08", "C09", "C14", "C15", "C20"], "kind_free_text": "the built fzf binary inside a private tmux server driven through --listen / keys; GET / state, stdout, exit status; hook trace for logical-time quiescence and failpoints"},
             {"name": "E-pkg", "path": "harness/{fieldchk,ansichk,readchk,histchk,walkchk,phchk,matchchk,httpchk,optchk}", "serves_properties": ["C06", "C10", "C11", "C12", "C13", "C16", "C17", "C18", "C19"], "kind_free_text": "unexported units driven at their boundary through the verif export shims"},
         ],
         "checks": checks,
